@@ -4,7 +4,8 @@
 //!
 //! One protocol line per run:
 //!   `sched <tokens…> ;; <quiescent|stuck|running> trace=<tid:point,…> end=q:<0|1>,stuck:<n>,lc:<v|none>,latest:<v> skipped=<n> tok=<v|none> cls=<ch|vl><+|-> | none`
-//! schedule tokens: `+open|+change|+save|+wait` (start the next handler = first poll), `w` (let the
+//! schedule tokens: `+open|+change|+save|+wait|+openstray` (start the next handler = first poll; `+openstray` is a
+//! did_open of a `.sw` file outside any project, whose handler returns an error before queueing anything), `w` (let the
 //! worker pass its next point), `h<k>` (let handler k pass its next point). Handler switches happen
 //! only where the real server can switch (handler future returned Pending or finished), the worker
 //! interleaves everywhere. Marker points (`w_recv`, `w_compile`, `p_enter`) are let through
@@ -31,10 +32,10 @@ const ST_DONE: u32 = 2;
 fn dbg(msg: impl FnOnce() -> String) { if std::env::var_os("SV_C24_DEBUG").is_some() { eprintln!("[c24] {}", msg()); } }
 
 #[derive(Clone, Copy, PartialEq, Debug)]
-enum Kind { Open, Change, Save, Wait }
+enum Kind { Open, Change, Save, Wait, OpenStray }
 impl Kind {
-    fn tok(self) -> &'static str { match self { Kind::Open => "+open", Kind::Change => "+change", Kind::Save => "+save", Kind::Wait => "+wait" } }
-    fn parse(s: &str) -> Option<Kind> { match s { "+open" => Some(Kind::Open), "+change" => Some(Kind::Change), "+save" => Some(Kind::Save), "+wait" => Some(Kind::Wait), _ => None } }
+    fn tok(self) -> &'static str { match self { Kind::Open => "+open", Kind::Change => "+change", Kind::Save => "+save", Kind::Wait => "+wait", Kind::OpenStray => "+openstray" } }
+    fn parse(s: &str) -> Option<Kind> { match s { "+open" => Some(Kind::Open), "+change" => Some(Kind::Change), "+save" => Some(Kind::Save), "+wait" => Some(Kind::Wait), "+openstray" => Some(Kind::OpenStray), _ => None } }
 }
 
 struct Wrap { fut: Pin<Box<dyn Future<Output = ()> + Send>>, tid: vs::Tid }
@@ -52,6 +53,7 @@ fn doc_text(v: u32) -> String { format!("script;\nfn main() {{}}\nfn ver_{}() {{
 struct Run {
     state: Arc<ServerState>,
     uri: Url,
+    stray: Url,                // a `.sw` file with no Forc.toml above it: did_open fails in its look-ups
     base: vs::Tid,
     kinds: Vec<Kind>,          // handler k (1-based) has kinds[k-1]
     midrun: Option<u32>,       // handler that was let through a point and has not yielded since
@@ -70,6 +72,7 @@ impl Run {
         let tid = self.tid(k);
         let state = self.state.clone();
         let uri = self.uri.clone();
+        let stray = self.stray.clone();
         let ver = if kind == Kind::Change { self.changes_started += 1; self.changes_started } else { 0 };
         vs::with(|i| { i.user.insert(tid, 0); });
         std::thread::spawn(move || {
@@ -93,6 +96,12 @@ impl Run {
                         state.did_save(p).await;
                     }
                     Kind::Wait => { state.wait_for_parsing().await; }
+                    Kind::OpenStray => {
+                        let p = DidOpenTextDocumentParams { text_document: TextDocumentItem {
+                            uri: stray.clone(), language_id: "sway".into(), version: 1, text: "script;\nfn main() {}\n".into() } };
+                        // expected to fail (ManifestFileNotFound): the handler returns before queueing anything
+                        if notification::handle_did_open_text_document(&state, p).await.is_ok() { eprintln!("sv_c24: did_open of a stray file succeeded"); }
+                    }
                 }
             });
             rt.block_on(Wrap { fut, tid });
@@ -285,7 +294,11 @@ fn run_one(script: &[String], mut plan: Vec<Kind>, mut rng: Option<&mut Rng>, ba
     vs::hold_all(true);
     let state = Arc::new(ServerState::default());
     let uri = Url::from_file_path(&main).unwrap();
-    let mut r = Run { state, uri, base, kinds: vec![], midrun: None, latest: 0, changes_started: 0, sched: vec![], skipped: 0, tq };
+    let stray_dir = tempfile::tempdir().unwrap();
+    let stray_file = stray_dir.path().join("stray.sw");
+    std::fs::write(&stray_file, "script;\nfn main() {}\n").unwrap();
+    let stray = Url::from_file_path(&stray_file).unwrap();
+    let mut r = Run { state, uri, stray, base, kinds: vec![], midrun: None, latest: 0, changes_started: 0, sched: vec![], skipped: 0, tq };
     r.settle();
     for tok in script {
         if !r.exec(tok, Duration::from_secs(2)) { r.skipped += 1; }
@@ -353,7 +366,10 @@ fn gen_plan(g: &mut Rng) -> Vec<Kind> {
     let mut plan = vec![Kind::Open];
     let n = 1 + g.below(5);
     for _ in 0..n {
-        plan.push(match g.below(10) { 0 => Kind::Open, 1..=4 => Kind::Change, 5..=6 => Kind::Save, _ => Kind::Wait });
+        let k = match g.below(12) { 0 => Kind::Open, 1..=4 => Kind::Change, 5..=6 => Kind::Save, 7..=8 => Kind::OpenStray, _ => Kind::Wait };
+        plan.push(k);
+        // a failed did_open must not leave anything behind that blocks a later request
+        if k == Kind::OpenStray { plan.push(Kind::Wait); }
     }
     plan
 }
